@@ -203,6 +203,54 @@ fn nonreduced(thorough: bool, rng: &mut Rng64, out: &mut Out, targets: &[Vec<Str
     }
 }
 
+/// One operand with more than 65 536 nodes: a dense pseudo-random function of 20 variables (~107 000 nodes),
+/// placed in a space of 23 variables with the levels 5, 6 and 22 free (the relabelling of the oracle builder's
+/// canonical diagram along a strictly increasing map is canonical).
+fn bigs(thorough: bool, rng: &mut Rng64, out: &mut Out) {
+    let rounds = if thorough { 3 } else { 1 };
+    for _ in 0..rounds {
+        let k = 20usize;
+        let n = 23usize;
+        let pos: Vec<usize> = (0..k).map(|i| if i < 5 { i } else { i + 2 }).collect();
+        let tt: Vec<bool> = (0..(1usize << k)).map(|_| rng.bool()).collect();
+        let nodes: Vec<(usize, usize, usize)> = canon_triples(k, &tt).iter().enumerate()
+            .map(|(i, (v, l, h))| if i < 2 { (n, *l, *h) } else { (pos[*v], *l, *h) }).collect();
+        let f = fmt_triples(&nodes);
+        // rename_variable: into an adjacent free level (accepted), over a free level (accepted), over a used one (refused)
+        let mut pairs = vec![(7usize, 6usize), (4, 6), (4, 5), (3, 5)];
+        if thorough { pairs.extend([(21, 22), (7, 5), (0, 22), (5, 6), (6, 5), (22, 5), (4, 23)]); }
+        for (old, new) in pairs { run("C17.renvar", &[f.clone(), old.to_string(), new.to_string()], out); }
+        // rename_variables: shift the upper block down by one, up by one; swap of two used levels (refused);
+        // swap of the two free levels 5 <-> 6 (keys outside the support: nothing happens)
+        let down: Vec<(usize, usize)> = (7..=21).map(|v| (v, v - 1)).collect();
+        let up: Vec<(usize, usize)> = (7..=21).map(|v| (v, v + 1)).collect();
+        run("C17.renvars", &[f.clone(), fmt_map(&down)], out);
+        run("C17.renvars", &[f.clone(), fmt_map(&up)], out);
+        run("C17.renvars", &[f.clone(), s("5:6,6:5,23:0")], out);
+        if thorough {
+            run("C17.renvars", &[f.clone(), s("4:7,7:4")], out);
+            run("C17.renvars", &[f.clone(), s("4:5,7:6")], out);
+            let down2: Vec<(usize, usize)> = (7..=21).map(|v| (v, v - 2)).collect();
+            run("C17.renvars", &[f.clone(), fmt_map(&down2)], out);
+        }
+        // set_num_vars up / to the lowest admissible value / one below it
+        for nv in if thorough { vec![30usize, 65535, 22, 21] } else { vec![30, 21] } { run("C17.setnv", &[f.clone(), nv.to_string()], out); }
+        // transfer: extra names, free levels dropped, order kept (Some); two used names swapped (None)
+        let src: Vec<String> = (0..n).map(|i| format!("v{}", i)).collect();
+        let mut tgt: Vec<String> = vec![s("e0")];
+        for i in 0..n { if i != 5 && i != 22 { tgt.push(src[i].clone()); } if i % 7 == 3 { tgt.push(format!("e{}", i)); } }
+        run("C17.transfer", &[f.clone(), fmt_names(&src), fmt_names(&tgt)], out);
+        if thorough {
+            let mut bad = tgt.clone();
+            let (a, b) = (bad.iter().position(|x| x == "v9").unwrap(), bad.iter().position(|x| x == "v10").unwrap());
+            bad.swap(a, b);
+            run("C17.transfer", &[f.clone(), fmt_names(&src), fmt_names(&bad)], out);
+            let missing: Vec<String> = tgt.iter().filter(|x| *x != "v13").cloned().collect();
+            run("C17.transfer", &[f.clone(), fmt_names(&src), fmt_names(&missing)], out);
+        }
+    }
+}
+
 const INVALID: [&str; 8] = [
     "|2,0,0|2,1,1|5,0,1|",            // variable out of range
     "|2,0,0|2,1,1|1,0,1|0,2,1|1,3,0|", // not ordered along an edge
@@ -312,6 +360,8 @@ pub fn gen(tier: Tier, rng: &mut Rng64, out: &mut Out) {
             run("C17.transfer", &[f.clone(), fmt_names(&src), fmt_names(&tgt)], out);
         }
     }
+    // ---------------- an operand with more than 65 536 nodes
+    bigs(thorough, rng, out);
     // ---------------- separate stream: inputs that are not valid diagrams (only model agreement is compared)
     for b in INVALID {
         let n: usize = 3;
